@@ -51,11 +51,23 @@ type world struct {
 var w *world
 
 func component(scripts []string, snaps int) vrt.Scenario {
+	return componentLabelled(scripts, snaps, nil)
+}
+
+// componentLabelled: with static metric labels configured, and the calls into
+// the Prometheus vectors as scheduling points (so that what a recorder prepared
+// for its call can be disturbed by another recorder before the call is made).
+// The happens-before memo is off: state shared through plain memory between a
+// recorder's preparation and its call is not part of the memo's key.
+func componentLabelled(scripts []string, snaps int, labels map[string]string) vrt.Scenario {
 	name := fmt.Sprintf("component/scripts=%s/snapshots=%d", strings.Join(scripts, ","), snaps)
+	if labels != nil {
+		name += fmt.Sprintf("/static-labels=%d/external-calls-are-scheduling-points", len(labels))
+	}
 	body := func() {
 		stats := &progress.Stats{}
 		reg := prometheus.NewRegistry()
-		m := metrics.NewInstance(reg, true, nil)
+		m := metrics.NewInstance(reg, true, labels)
 		res := run.NewResult(options.RunOptions{}, nil, stats)
 		cur := &world{res: res, reg: reg}
 		w = cur
@@ -146,7 +158,7 @@ func component(scripts []string, snaps int) vrt.Scenario {
 		}
 	}
 	helper := strings.Contains(strings.Join(scripts, ""), string(rune(oHelper)))
-	return vrt.Scenario{Name: name, Body: body, Post: post, Memo: true, Horizon: time.Minute, Setup: func() { vatomict.Active = helper }}
+	return vrt.Scenario{Name: name, Body: body, Post: post, Memo: labels == nil, Horizon: time.Minute, Setup: func() { vatomict.Active = helper; vrt.ExtCalls = labels != nil }}
 }
 
 func diffKey(got, want counts) string {
@@ -181,7 +193,8 @@ func gatherCounts(reg *prometheus.Registry) counts {
 	var c counts
 	mfs, err := reg.Gather()
 	if err != nil {
-		panic(err)
+		// (for instance two series with the same label values: the exported metrics are unusable)
+		return counts{^uint64(0), ^uint64(0), ^uint64(0)}
 	}
 	for _, mf := range mfs {
 		if mf.GetName() != "form3_loadtest_iteration" {
@@ -327,6 +340,15 @@ func scenariosFor(tier string) []vrt.Scenario {
 		add(2, 1, "sf", "fs")
 		add(2, 2, "s", "s")
 		add(2, 1, "d", "s", "f")
+		out = append(out, func() vrt.Scenario {
+			sc := componentLabelled([]string{"s", "f"}, 0, map[string]string{"env": "x"})
+			sc.Bound = 2
+			return sc
+		}(), func() vrt.Scenario {
+			sc := componentLabelled([]string{"sd", "f"}, 1, map[string]string{"env": "x", "zone": "y"})
+			sc.Bound = 1
+			return sc
+		}())
 		add(2, 0, "h") // a helper goroutine fails the handle late: result and metrics must agree
 		add(2, 1, "sh", "f")
 		return out
@@ -344,6 +366,14 @@ func scenariosFor(tier string) []vrt.Scenario {
 	add(3, 1, "s", "f", "d")
 	add(3, 2, "ss", "ff")
 	add(2, 2, "sf", "fd", "ds")
+	for _, scr := range [][]string{{"s", "f"}, {"sd", "f"}, {"sf", "fs"}, {"d", "s", "f"}} {
+		sc := componentLabelled(scr, 1, map[string]string{"env": "x", "zone": "y"})
+		sc.Bound = 3
+		if len(scr) > 2 {
+			sc.Bound = 2
+		}
+		out = append(out, sc)
+	}
 	add(1000, 0, "h")
 	add(3, 1, "hs", "f")
 	add(3, 1, "h", "h")
